@@ -324,8 +324,46 @@ pub fn binary_history_case(ctx: &Ctx, exe: &std::path::Path, prev: &str, text: &
     let ok = run(&fresh, text) && run(&hist, prev) && run(&hist, text);
     let a = collect_files(&fresh);
     let b = collect_files(&hist);
+    // second history: two sources with the same file name in different directories, both older
+    // than anything the tool writes (checked out / unpacked before the first compilation)
+    let hist2 = ctx.scratch.join(format!("hist{tag:016x}_dirs"));
+    let mut ok2 = true;
+    for (sub, src) in [("a", prev), ("b", text)] {
+        let d = hist2.join(sub);
+        let _ = std::fs::create_dir_all(&d);
+        let f = d.join("prog.sc");
+        ok2 &= std::fs::write(&f, src).is_ok();
+        if let Ok(h) = std::fs::File::options().write(true).open(&f) {
+            let _ = h.set_modified(std::time::SystemTime::now() - std::time::Duration::from_secs(if sub == "a" { 3600 } else { 7200 }));
+        }
+    }
+    for sub in ["a", "b"] {
+        for backend in ["rv64", "x86-64"] {
+            let mut cmd = Command::new(exe);
+            cmd.arg("-n").arg("codegen").arg(format!("{sub}/prog.sc")).arg(backend).arg("--print-ir").current_dir(&hist2).stdin(Stdio::null()).stdout(Stdio::null()).stderr(Stdio::null());
+            ok2 &= cmd.output().is_ok();
+        }
+    }
+    let b2 = collect_files(&hist2);
     let _ = std::fs::remove_dir_all(&fresh);
     let _ = std::fs::remove_dir_all(&hist);
+    let _ = std::fs::remove_dir_all(&hist2);
+    if ok && ok2 {
+        for (name, content) in &a {
+            match b2.get(name) {
+                Some(c) if c == content => {}
+                other => {
+                    let x = String::from_utf8_lossy(content).into_owned();
+                    let y = other.map(|c| String::from_utf8_lossy(c).into_owned()).unwrap_or_else(|| "<file missing>".into());
+                    return CaseResult::Fail(Failure {
+                        kind: "binary-history".into(),
+                        summary: format!("`scc codegen b/prog.sc` writes a different {name} when a/prog.sc (another program, same file name; both sources older than the first output) was compiled before in the same working directory: {}", first_diff(&x, &y)),
+                        details: json!({"source": text, "compiled_before": prev, "file": name, "scenario": "same file name in two directories, old modification times"}),
+                    });
+                }
+            }
+        }
+    }
     if !ok {
         return CaseResult::Discard("infra: cannot run scc".into());
     }
@@ -389,7 +427,7 @@ pub fn check(ctx: &Ctx) -> i32 {
     let start = Instant::now();
     let mut ev = Evidence::default();
     let k = ctx.tier.pick(8, 32);
-    ev.rule = format!("(a) each generated program is compiled in {k} fresh processes (`sccv stage`, i.e. the repository's library stages; each process draws fresh hash seeds; environment variables and working directory varied) and the concatenation of printed Core, uniquified Core, focused Core, AxCut, linearized AxCut and the assembly of all three backends must be byte-identical; (b) histories: a program is compiled alone, twice, and after 1..3 other programs in one process; all outputs must be identical after renumbering the generated label counters (lab<n>, <Type>_<n>) by first occurrence. Non-trivial: (a) >= 3 polymorphic type instances in the source (hash order can matter), (b) history length >= 2; distinct by source hash. (c) the real `scc` binary: `compile`, `focus`, `shrink`, `linearize` three times each with varied environment and working directory must print identical text, and the assembly files written by `scc codegen rv64|x86-64` in two different working directories must be identical; and every file written by `scc codegen --print-ir` for a program must be the same in a fresh directory and in a directory where another program was compiled before under the same file name. Hash seeds cannot be chosen: processes sample them.");
+    ev.rule = format!("(a) each generated program is compiled in {k} fresh processes (`sccv stage`, i.e. the repository's library stages; each process draws fresh hash seeds; environment variables and working directory varied) and the concatenation of printed Core, uniquified Core, focused Core, AxCut, linearized AxCut and the assembly of all three backends must be byte-identical; (b) histories: a program is compiled alone, twice, and after 1..3 other programs in one process; all outputs must be identical after renumbering the generated label counters (lab<n>, <Type>_<n>) by first occurrence. Non-trivial: (a) >= 3 polymorphic type instances in the source (hash order can matter), (b) history length >= 2; distinct by source hash. (c) the real `scc` binary: `compile`, `focus`, `shrink`, `linearize` three times each with varied environment and working directory must print identical text, and the assembly files written by `scc codegen rv64|x86-64` in two different working directories must be identical; and every file written by `scc codegen --print-ir` for a program must be the same in a fresh directory and in a directory where another program was compiled before under the same file name (the same path overwritten, and `a/prog.sc` then `b/prog.sc` with both sources older than the first output). Hash seeds cannot be chosen: processes sample them.");
     ev.assumptions = vec!["(a) and (b) call the library functions the CLI calls; (c) runs the binary built from the same tree".into()];
     let cfg = cfg_for(ctx);
     let mut report = Report { violations: vec![], infra_errors: vec![] };
